@@ -236,6 +236,24 @@ Section Samples.
   Definition csv_load (fx : bool) (t : list string * list (list cell)) : res (list sample) :=
     traverse (csv_load_row fx (fst t)) (snd t).
 
+  (* samples_from_iterator after proposed_fixes/C09-table-columns-by-position.diff: a table whose header ends with the four
+     reserved columns is read by position (values[:len-4] zipped with headers[:-4]; the last four cells are
+     ll, lp, posterior, weight); any other table as before *)
+  Definition csv_load_row_pos (fx : bool) (headers : list string) (cells : list cell) : res sample :=
+    let n := List.length headers in
+    if list_eq_dec string_dec (skipn (n - 4) headers) reserved4 then
+      let vals := map parse cells in
+      match skipn (n - 4) (firstn n vals) with
+      | [ll; lp; _; w] =>
+          Ok (mkSample ll lp w
+                (sample_init fx (map (fun hv => (KStr (fst hv), snd hv))
+                                     (dict_of_list string_dec (combine (firstn (n - 4) headers) vals)))))
+      | _ => OtherErr
+      end
+    else csv_load_row fx headers cells.
+  Definition csv_load_pos (fx : bool) (t : list string * list (list cell)) : res (list sample) :=
+    traverse (csv_load_row_pos fx (fst t)) (snd t).
+
   (* -------------------------------------------------------------- summary JSON (Sample.dict / from_dict) *)
   Definition key_str (k : key) : string := match k with KStr s => s | KTup p => join_dot p end.
   Definition json_save (s : sample) : (cell * cell * cell * list (string * cell)) :=
@@ -310,6 +328,8 @@ Section Samples.
 
   Definition csv_roundtrip (fx : bool) (tps : list path) (Ws : list (path * nat)) (S : list sample) : res (list sample) :=
     res_bind (csv_save tps Ws S) (csv_load fx).
+  Definition csv_roundtrip_pos (fx : bool) (tps : list path) (Ws : list (path * nat)) (S : list sample) : res (list sample) :=
+    res_bind (csv_save tps Ws S) (csv_load_pos fx).
   Definition db_roundtrip (fx : bool) (S : list sample) : res (list sample) :=
     res_bind (eff_of S) (fun e => Ok (eff_samples fx e)).
   Definition json_roundtrip (fx drop0 : bool) (s : sample) : sample := json_load fx drop0 (json_save s).
@@ -366,6 +386,10 @@ Definition sample_eqb (a b : fsample) : bool :=
 Definition pn_eqb (a b : path * nat) : bool := path_eqb (fst a) (fst b) && Nat.eqb (snd a) (snd b).
 
 Definition fx := code_is_fixed.
+Definition f_csv_load (t : list string * list (list float)) : res (list fsample) :=
+  if table_reads_by_position then csv_load_pos fid fx t else csv_load fid fx t.
+Definition f_csv_roundtrip (tps : list path) (Ws : list (path * nat)) (S : list fsample) : res (list fsample) :=
+  res_bind (csv_save fid PrimFloat.add tps Ws S) f_csv_load.
 Definition f_from_lists (t : node) (rows : list (srow float)) : list fsample := from_lists fx (sorted_walk t) rows.
 Definition f_param_lists (t : node) (S : list fsample) := param_lists (tuple_paths [] t) (sorted_walk t) S.
 Definition f_best (t : node) (S : list fsample) := best_vector fgtb (tuple_paths [] t) (sorted_walk t) S.
@@ -422,9 +446,9 @@ Definition check_case (c : case) : bool :=
       && list_eqb path_eqb (tuple_paths [] t) tps
   | CCsv t rows loaded pl best =>
       let S := f_from_lists t rows in
-      view_eqb t (csv_roundtrip fid fid PrimFloat.add fx (tuple_paths [] t) (sorted_walk t) S) loaded pl best
+      view_eqb t (f_csv_roundtrip (tuple_paths [] t) (sorted_walk t) S) loaded pl best
   | CLoadCsv t headers cells loaded pl best =>
-      view_eqb t (csv_load fid fx (headers, cells)) loaded pl best
+      view_eqb t (f_csv_load (headers, cells)) loaded pl best
   | CJsonHist h obs =>
       let l := run_json h in
       forallb (fun o => match o with (k, got, n) =>
@@ -436,11 +460,10 @@ Definition check_case (c : case) : bool :=
   | CResave t rows loaded pl best =>
       let tps := tuple_paths [] t in
       let Ws := sorted_walk t in
-      view_eqb t (res_bind (csv_roundtrip fid fid PrimFloat.add fx tps Ws (f_from_lists t rows))
-                           (csv_roundtrip fid fid PrimFloat.add fx tps Ws)) loaded pl best
+      view_eqb t (res_bind (f_csv_roundtrip tps Ws (f_from_lists t rows)) (f_csv_roundtrip tps Ws)) loaded pl best
   | CScrape t headers cells loaded pl best =>
       (* the scraper first builds Fit(instance=item.instance): the best-fit lookup on the loaded samples must succeed *)
-      match csv_load fid fx (headers, cells) with
+      match f_csv_load (headers, cells) with
       | Ok sl =>
           match f_best t sl with
           | Ok _ => view_eqb t (db_roundtrip fx sl) loaded pl best
